@@ -331,10 +331,21 @@ def groups(tier, seed):
     yield {'cases': [{'kind': 'compact-underscore', 'a': a, 'b': b} for a, b in (('line_count*2', 'line_count * 2'), ('line_count+1', 'line_count + 1'),
                                                                                   ('2*line_count', '2 * line_count'), ('line_count%2', 'line_count % 2'),
                                                                                   ('length(name)*line_count', 'length(name) * line_count'))]}
+    # compact expressions of every length from 6 to 90 characters (the word rules look ahead a fixed number of characters): as their spaced twins
+    win = []
+    for tail in ('uid', 'size', 'hardlinks', 'mp3_year'):
+        for j in range(0, 40):
+            a = 'size' + '+1' * j + '+0*' + tail if tail != 'mp3_year' else 'size' + '+1' * j + '+length(name)*2'
+            win.append({'kind': 'compact-underscore', 'a': a, 'b': a.replace('+', ' + ').replace('*', ' * ')})
+    for i in range(0, len(win), 16):
+        yield {'cases': win[i:i + 16]}
     # an expression on the right of a comparison, written without blanks
     yield {'cases': [{'kind': 'where-rhs', 'e': e, 'op': o} for e in ('2*3', '12/2', '14%8', 'size*1', '2*3+1', '(2*3)', '1+2*3', '2 * 3', '10-2*2', 'hardlinks*5',
                                                                         '5 / 2', '7/2', 'size/2', '2030-2024', '20000-19995', '2024-size', '2000-10', '2017-5', 'hardlinks_x' if False else '2000-1993')
                      for o in ('=', '!=', '>=', '<', 'gte', 'eq')]}
+    # a condition on an expression with the same digits under both signs
+    yield {'cases': [{'kind': 'where-signed', 'e': e, 'k': k, 'shape': sh} for e in ('size - 10', 'size * 2 - 20', 'size % 7 - 3', '0 - size', 'size / 2 - 5')
+                     for k in (1, 3, 5, 12) for sh in range(5)]}
     # the shown value of an expression that also occurs in a WHERE arm which is skipped for some rows
     uf = [e for e in p if not any(w in e for w in ('contains', 'replace', '{', 'plus', 'mul')) and ('size' in e or 'hardlinks' in e or 'name' in e)]
     for i in range(0, len(uf), 6):
@@ -412,6 +423,22 @@ def eval_group(env, group, tier):
                              detail={'query': q, 'got': sorted(o.rows()), 'expected': want, 'err': o.brief()['err']})
                 else:
                     r.update(status='ok', sig=('where-rhs', c['e'], c['op']))
+                outs.append(r)
+                continue
+            if kind == 'where-signed':
+                k, e_ = c['k'], c['e']
+                cond, f = [('%s > -%d and %s < %d' % (e_, k, e_, k), lambda v: -k < v < k), ('%s between -%d and %d' % (e_, k, k), lambda v: -k <= v <= k),
+                           ('%s < -%d or %s > %d' % (e_, k, e_, k), lambda v: v < -k or v > k), ('%s <= %d and %s >= -%d' % (e_, k, e_, k), lambda v: -k <= v <= k),
+                           ('-%d < %s and %d > %s' % (k, e_, k, e_), lambda v: -k < v < k)][c['shape']]
+                want = sorted(x['name'] for x in ents if f(pool_value(e_, x)))
+                q = 'name where %s into list' % cond
+                o = env.run([q], cwd=root)
+                r['nt'] = True
+                r['trans'] = len(ents)
+                if o.rc != 0 or o.err or sorted(o.rows()) != want:
+                    r.update(status='viol', cls='where-signed-pair', sig=('where-signed',), detail={'query': q, 'got': sorted(o.rows()), 'expected': want, 'err': o.brief()['err']})
+                else:
+                    r.update(status='ok', sig=('where-signed', cond))
                 outs.append(r)
                 continue
             if kind == 'under-filter':
